@@ -5,7 +5,7 @@ one Block object (Block.parse / parse_bytes / parse_bytesio with parse_transacti
 parse_transaction, parse_transactions_dict, parse_transaction_dict, serialize)."""
 import sys, os, logging
 sys.path.insert(0, os.path.dirname(os.path.abspath(__file__)))
-from common_impl import hx, unhx, serve
+from common_impl import hx, unhx
 logging.disable(logging.CRITICAL)
 from bitcoinlib.transactions import Transaction
 from bitcoinlib.blocks import Block
@@ -36,10 +36,13 @@ def one_parse(raw, strict):
 
 
 def do_tx(raw):
+    import time
+    t0 = time.time()
     s, ts = one_parse(raw, True)
+    slow = time.time() - t0 > 60      # witness stacks of 65535 items take the library minutes per parse
     l, tl = one_parse(raw, False)
     extra = ''
-    if ts is not None:
+    if ts is not None and not slow:
         # the other public entry points must agree with Transaction.parse
         try:
             a = Transaction.parse_hex(raw.hex())
@@ -178,4 +181,33 @@ def dispatch(t):
     return 'BADREQ'
 
 
-serve(dispatch)
+def answer(line):
+    toks = line.strip().split(' ')
+    try:
+        return dispatch(toks)
+    except RecursionError:
+        return 'CRASH recursion'
+    except Exception as e:
+        # as common_impl.serve: an unexpected library exception is an ANSWER, not a reason for the adapter to die
+        return 'CRASH %s: %s' % (type(e).__name__, ' '.join(str(e).split())[:120])
+
+
+def main():
+    """every request builds its own objects, so the lines are answered by a pool of forked workers (the thorough
+    streams hold transactions the library needs minutes for); answers come back in request order"""
+    lines = sys.stdin.read().split('\n')
+    if lines and lines[-1] == '':
+        lines.pop()
+    workers = int(os.environ.get('C06_IMPL_WORKERS', '8'))
+    if len(lines) < 200 or workers <= 1:
+        for ln in lines:
+            sys.stdout.write(answer(ln) + '\n')
+    else:
+        import multiprocessing
+        with multiprocessing.get_context('fork').Pool(workers) as pool:
+            for r in pool.imap(answer, lines, chunksize=4):
+                sys.stdout.write(r + '\n')
+    sys.stdout.flush()
+
+
+main()
